@@ -47,7 +47,7 @@ def config(draw):
     return d
 
 
-def build(desc, mode, lin="direct"):
+def build(desc, mode, lin="direct", lbgs_tol=1e-13):
     if desc["topo2"] == "multipoint":
         p = build_multipoint(desc, mode)
         npts = 2
@@ -58,7 +58,7 @@ def build(desc, mode, lin="direct"):
         for i in range(npts):
             c = getattr(p.model, "AS_point_%d" % i).coupled
             if lin == "lbgs":
-                c.linear_solver = om.LinearBlockGS(maxiter=1000, atol=1e-13, rtol=1e-13, iprint=-1, err_on_non_converge=True)
+                c.linear_solver = om.LinearBlockGS(maxiter=1000, atol=lbgs_tol, rtol=lbgs_tol, iprint=-1, err_on_non_converge=True)
             else:
                 c.linear_solver = om.ScipyKrylov(maxiter=500, atol=1e-13, rtol=1e-11, iprint=-1, err_on_non_converge=True)
                 c.linear_solver.precon = om.LinearRunOnce(iprint=-1)
@@ -293,6 +293,26 @@ def verdict(desc):
                           atol=1e-7 * max(fm[k[0]], 1e-9) / xm[k[1]], scale=sc, msg="wrt %s (%s)" % (k[1], amode))
             out.label("solver-conclusive:%s/%s" % (lin, amode))
             pa.cleanup()
+    # (4) block Gauss-Seidel converges in reverse mode iff it converges in forward mode: the reverse sweep on the transposed
+    # system has the iteration matrix [U (D+L)^-1]^T, whose spectrum is that of the forward one (D+L)^-1 U.  A one-sided
+    # failure (at a moderate tolerance both modes reach on a correct tree) means the reverse operators are not the transposes.
+    if topo == "aerostruct":
+        conv = {}
+        for m_ in ("fwd", "rev"):
+            pa = build(desc, m_, lin="lbgs", lbgs_tol=1e-9)
+            try:
+                pa.run_model()
+                Ja = _dense(pa.compute_totals(of=of, wrt=wrt))
+                conv[m_] = Ja
+            except (om.AnalysisError, ValueError) as e:
+                if isinstance(e, ValueError) and "infs or NaNs" not in str(e):
+                    raise
+                conv[m_] = None
+            pa.cleanup()
+        state = "".join("1" if conv[m_] is not None else "0" for m_ in ("fwd", "rev"))
+        out.label("lbgs-fwd/rev-converged=" + state)
+        if state in ("10", "01"):
+            out.fail("solver_lbgs/converges_in_one_mode_only", "LinearBlockGS(atol=rtol=1e-9, maxiter=1000) converged(fwd,rev)=%s" % state)
     out.label("topo=" + topo)
     for w in wrt:
         out.label("wrt=" + w.split(".")[-1].rstrip("_01"))
